@@ -203,13 +203,24 @@ fn decl_text(l: Letter, i: usize) -> String {
     let kind = l_kind(l);
     let name = decl_name(i);
     let mut s = String::new();
+    // object-typed declarations at odd positions spell their group as `: register(spaceN)` instead (both spellings set
+    // the same group; added after a seeded change in the parsing of register(space0) was missed)
+    let register_syntax = kind.form == Form::Object && i % 2 == 1;
     if let Some(g) = l_group(l) {
-        s.push_str(&format!("[[rssl::bind_group({})]] ", g));
+        if !register_syntax {
+            s.push_str(&format!("[[rssl::bind_group({})]] ", g));
+        }
     }
     let arr = match l_array(l) {
         Some(n) => format!("[{}]", n),
         None => String::new(),
     };
+    if register_syntax {
+        if let Some(g) = l_group(l) {
+            s.push_str(&format!("{} {}{} : register(space{});", kind.ty, name, arr, g));
+            return s;
+        }
+    }
     match kind.form {
         Form::Object | Form::Numeric => s.push_str(&format!("{} {}{};", kind.ty, name, arr)),
         Form::Cbuffer => s.push_str(&format!("cbuffer {} {{ float4 {}_m; }}", name, name)),
@@ -1084,7 +1095,7 @@ pub fn run(ctx: &Ctx) -> i32 {
     rep.assumptions = vec![
         "the BFS key contains the complete state assign_api_bindings carries between declarations (used_slots, inline_size; hook H4) plus the reference-model state; process_definition reads nothing else besides the current declaration, the constant parameters and the default group, so merged states have identical futures".into(),
         "alphabet = every declarable bindable kind of ir::ObjectType (20: the *Mips* kinds have no spelling; TriangleStream, RayQuery, RayDesc are not resources) + cbuffer block + static samplers + plain/static/groupshared float, x array {none,1,2,3} x group {default,0,1,2}; letters the type checker rejects when declared alone are listed in letters_rejected_by_type_checker and left out".into(),
-        "one group annotation syntax, [[rssl::bind_group(N)]] (the only one accepted on every kind); groups >= 3, array lengths > 3 and unbounded arrays are outside the explored space".into(),
+        "two group annotation syntaxes: [[rssl::bind_group(N)]] (accepted on every kind) and, for object-typed declarations at odd positions, `: register(spaceN)`; groups >= 3, array lengths > 3 and unbounded arrays are outside the explored space".into(),
         "arrays of buffer addresses with buffer addresses enabled are bound resources that the 'instead takes 8 bytes' clause (non-array addresses only) does not cover: by the first sentence of the property they are expected to take N ordinary slots (this is what the allocator does: is_buffer_address is false for an array type)".into(),
         "two slots per element on Metal are expected for ByteAddressBuffer, RWByteAddressBuffer, StructuredBuffer, RWStructuredBuffer, BufferAddress, RWBufferAddress and for nothing else".into(),
         "the four AssignBindingsParams configurations are transcribed from src/compile.rs; the end-to-end cross-check compares the hook trace inside rssl::compile with the trace of the direct call, so a drift of the transcription is reported as alloc|metadata-disagrees|hook-trace".into(),
